@@ -225,6 +225,8 @@ class Interp:
             v = self.ev(n["a"])
             tags = {("-" + t[1:] if t.startswith("+") else "+" + t[1:]) for t in v.tags if t[:1] in "+-"}
             return AV(iv_neg(v.iv), m_flip(v.mono), tags)
+        if k == "Binary" and n["op"] == "*":
+            return self.product(n)
         if k == "Binary":
             return self.binop(n["op"], self.ev(n["a"]), self.ev(n["b"]), n)
         if k == "MethodCall":
@@ -232,6 +234,39 @@ class Interp:
         if k == "Call":
             return AV()
         return AV()
+
+    def product(self, n):
+        """Flatten a multiplication chain; pairs of identical places are squares (>= 0)."""
+        factors = []
+
+        def flat(x):
+            x = K.peel(x)
+            if x.get("k") == "Binary" and x["op"] == "*":
+                flat(x["a"])
+                flat(x["b"])
+            else:
+                factors.append(x)
+        flat(n)
+        by_key = {}
+        rest = []
+        for f in factors:
+            kx = self.place_key(f)
+            if kx is None:
+                rest.append(self.ev(f))
+            else:
+                by_key.setdefault(kx, []).append(f)
+        vals = list(rest)
+        for kx, fs in by_key.items():
+            v = self.read(fs[0])
+            for _ in range(len(fs) // 2):
+                sq = iv_mul(v.iv, v.iv)
+                vals.append(AV(Iv(max(sq.lo, 0.0), sq.hi, False if sq.lo <= 0 else sq.lo_open, sq.hi_open), "C" if v.mono == "C" else "T"))
+            if len(fs) % 2:
+                vals.append(v)
+        acc = vals[0]
+        for v in vals[1:]:
+            acc = self.binop("*", acc, v, None)
+        return acc
 
     def binop(self, op, a, b, n=None):
         if op == "+":
@@ -255,7 +290,7 @@ class Interp:
             tags = set()
             for (x, y) in ((a, b), (b, a)):
                 for t in x.tags:
-                    if t[:1] in "+-" and y.mono == "C":
+                    if t[:1] in "+-":
                         if y.iv.pos():
                             tags.add(t)
                         elif y.iv.neg():
@@ -282,7 +317,7 @@ class Interp:
                 mono = "T"
             tags = set()
             for t in a.tags:
-                if t[:1] in "+-" and b.mono == "C":
+                if t[:1] in "+-":
                     if b.iv.pos():
                         tags.add(t)
                     elif b.iv.neg():
@@ -300,7 +335,8 @@ class Interp:
         if name == "sqrt":
             return AV(iv_mono_fn(r.iv, math.sqrt, lambda i: i.nonneg()), r.mono if r.iv.nonneg() else "T")
         if name == "ln":
-            return AV(iv_mono_fn(r.iv, lambda x: math.log(x) if x > 0 else -INF, lambda i: i.nonneg()), r.mono if r.iv.nonneg() else "T")
+            return AV(iv_mono_fn(r.iv, lambda x: math.log(x) if x > 0 else -INF, lambda i: i.nonneg()), r.mono if r.iv.nonneg() else "T",
+                      {"cap"} if "cap" in r.tags else ())
         if name == "exp":
             iv = iv_mono_fn(r.iv, lambda x: math.exp(x) if x < 700 else INF, lambda i: True)
             iv = Iv(max(iv.lo, 0.0), iv.hi, True if iv.lo <= 0 else iv.lo_open, iv.hi_open)
